@@ -23,6 +23,7 @@ struct Seen {
 struct LRec {
     seen: Arc<Mutex<Seen>>,
     discover_delay: Duration,
+    big_status: bool,
 }
 impl std::fmt::Debug for LRec {
     fn fmt(&self, f: &mut std::fmt::Formatter<'_>) -> std::fmt::Result {
@@ -32,7 +33,12 @@ impl std::fmt::Debug for LRec {
 impl StatusAdapter for LRec {
     async fn status(&self, c: &SocketAddr, _s: (&str, u16), _p: Protocol) -> passage_adapters::Result<Option<ServerStatus>> {
         self.seen.lock().unwrap().status_addrs.push(*c);
-        Ok(Some(ServerStatus::default()))
+        let mut st = ServerStatus::default();
+        if self.big_status {
+            // a status with a server icon: far more than a socket buffer holds for a client that does not read
+            st.favicon = Some(format!("data:image/png;base64,{}", "A".repeat(2_000_000)));
+        }
+        Ok(Some(st))
     }
 }
 impl AuthenticationAdapter for LRec {
@@ -66,7 +72,7 @@ struct Running {
 
 async fn start(cfg: &Value, discover_delay_ms: u64) -> Running {
     let seen = Arc::new(Mutex::new(Seen::default()));
-    let a = Arc::new(LRec { seen: seen.clone(), discover_delay: Duration::from_millis(discover_delay_ms) });
+    let a = Arc::new(LRec { seen: seen.clone(), discover_delay: Duration::from_millis(discover_delay_ms), big_status: cfg["bigStatus"].as_bool().unwrap_or(false) });
     let proxy = match cfg["proxy"].as_str().unwrap_or("off") {
         "v1" => Some(ParseConfig { include_tlvs: false, allow_v1: true, allow_v2: false }),
         "v2" => Some(ParseConfig { include_tlvs: false, allow_v1: false, allow_v2: true }),
@@ -251,25 +257,110 @@ async fn park(stage: &str, port: u16, proxied: bool) -> Option<Tcp> {
     Some(t)
 }
 
+/// Connections that are reset (SO_LINGER 0) the moment the kernel has completed the handshake -- many of them before the
+/// accept loop has taken them out of the backlog. Blocking sockets on plain threads: no scheduler between connect and reset.
+fn reset_burst(port: u16, threads: usize, each: usize) {
+    let hs: Vec<_> = (0..threads)
+        .map(|_| {
+            std::thread::spawn(move || {
+                for _ in 0..each {
+                    if let Ok(s) = socket2::Socket::new(socket2::Domain::IPV4, socket2::Type::STREAM, None) {
+                        let _ = s.set_linger(Some(Duration::ZERO));
+                        let _ = s.connect(&SocketAddr::from(([127, 0, 0, 1], port)).into());
+                        drop(s);
+                    }
+                }
+            })
+        })
+        .collect();
+    for h in hs {
+        let _ = h.join();
+    }
+}
+
+/// Requests the status and never reads the answer (tiny receive buffer): the server is left with undelivered data.
+async fn park_unread(port: u16, proxied: bool) -> Option<Tcp> {
+    let s = socket2::Socket::new(socket2::Domain::IPV4, socket2::Type::STREAM, None).ok()?;
+    let _ = s.set_recv_buffer_size(1024);
+    s.connect(&SocketAddr::from(([127, 0, 0, 1], port)).into()).ok()?;
+    s.set_nonblocking(true).ok()?;
+    let std_s: std::net::TcpStream = s.into();
+    let mut t = Tcp::from_stream(tokio::net::TcpStream::from_std(std_s).ok()?);
+    if proxied {
+        let _ = t.send_raw(&proxy_v1(label_addr("ipB"), format!("10.0.0.1:{port}").parse().unwrap())).await;
+    }
+    let _ = t.send_frame(0, &body_handshake(770, "h", 25565, 1)).await;
+    let _ = t.send_frame(0, &[]).await;
+    Some(t)
+}
+
+async fn good_client(port: u16, proxied: bool, wait_ms: u64) -> (String, u64) {
+    let started = Instant::now();
+    let mut outcome = "connect-error".to_string();
+    if let Ok(mut t) = Tcp::connect(SocketAddr::new("127.0.0.1".parse().unwrap(), port), None).await {
+        if proxied {
+            let _ = t.send_raw(&proxy_v1(label_addr("ipA"), format!("10.0.0.1:{port}").parse().unwrap())).await;
+        }
+        outcome = status_exchange(&mut t, None, Duration::from_millis(wait_ms)).await;
+    }
+    (outcome, started.elapsed().as_millis() as u64)
+}
+
 async fn run_c16(sc: &Value) -> Value {
     let run = start(&sc["cfg"], 0).await;
     let proxied = sc["cfg"]["proxy"].as_str().unwrap_or("off") != "off";
     let mut parked = vec![];
     for h in sc["hostile"].as_array().cloned().unwrap_or_default() {
-        if let Some(t) = park(h.as_str().unwrap_or(""), run.port, proxied).await {
-            parked.push(t);
+        match h.as_str().unwrap_or("") {
+            "reset-burst" => {
+                let port = run.port;
+                let _ = tokio::task::spawn_blocking(move || reset_burst(port, 8, 40)).await;
+            }
+            "unread-status" => {
+                if let Some(t) = park_unread(run.port, proxied).await {
+                    parked.push(t);
+                }
+            }
+            st => {
+                if let Some(t) = park(st, run.port, proxied).await {
+                    parked.push(t);
+                }
+            }
         }
     }
     tokio::time::sleep(Duration::from_millis(200)).await;
-    let started = Instant::now();
-    let mut outcome = "connect-error".to_string();
-    if let Ok(mut t) = Tcp::connect(SocketAddr::new("127.0.0.1".parse().unwrap(), run.port), None).await {
-        if proxied {
-            let _ = t.send_raw(&proxy_v1(label_addr("ipA"), format!("10.0.0.1:{}", run.port).parse().unwrap())).await;
+    let (outcome, latency) = if sc["cfg"]["bigStatus"].as_bool().unwrap_or(false) { ("served".to_string(), 0) } else { good_client(run.port, proxied, 4000).await };
+    // a second well-behaved client after a quiet period in which the server gave up on the parked ones (their deadline passed)
+    let timeout_ms = sc["cfg"]["timeoutMs"].as_u64().unwrap_or(3000);
+    let (quiet_outcome, quiet_latency) = match sc["quietAfterMs"].as_u64() {
+        Some(extra) => {
+            tokio::time::sleep(Duration::from_millis((timeout_ms + extra).saturating_sub(200 + latency))).await;
+            let port = run.port;
+            let big = sc["cfg"]["bigStatus"].as_bool().unwrap_or(false);
+            if big {
+                // only the connection and the first byte of the answer count (the client does not download the icon)
+                let started = Instant::now();
+                let mut o = "connect-error".to_string();
+                if let Ok(mut t) = Tcp::connect(SocketAddr::new("127.0.0.1".parse().unwrap(), port), None).await {
+                    if proxied {
+                        let _ = t.send_raw(&proxy_v1(label_addr("ipA"), format!("10.0.0.1:{port}").parse().unwrap())).await;
+                    }
+                    let _ = t.send_frame(0, &body_handshake(770, "h", 25565, 1)).await;
+                    let _ = t.send_frame(0, &[]).await;
+                    let mut b = [0u8; 64];
+                    o = match tokio::time::timeout(Duration::from_millis(8000), tokio::io::AsyncReadExt::read(&mut t.s, &mut b)).await {
+                        Ok(Ok(n)) if n > 0 => "served".into(),
+                        Ok(_) => "closed".into(),
+                        Err(_) => "timeout".into(),
+                    };
+                }
+                (o, started.elapsed().as_millis() as u64)
+            } else {
+                good_client(port, proxied, 4000).await
+            }
         }
-        outcome = status_exchange(&mut t, None, Duration::from_millis(4000)).await;
-    }
-    let latency = started.elapsed().as_millis() as u64;
+        None => ("served".to_string(), 0),
+    };
     // C17 on the side: does the listener still stop while hostile sockets are parked?
     run.stop.cancel();
     let stop_at = Instant::now();
@@ -277,6 +368,7 @@ async fn run_c16(sc: &Value) -> Value {
     let return_ms = stop_at.elapsed().as_millis() as u64;
     drop(parked);
     json!({"family": "C16", "cfg": sc["cfg"], "hostile": sc["hostile"], "goodOutcome": outcome, "goodLatencyMs": latency,
+           "quietOutcome": quiet_outcome, "quietLatencyMs": quiet_latency,
            "returnedAfterStop": returned, "returnMs": return_ms})
 }
 
